@@ -11,6 +11,7 @@ package multiplex
 
 import (
 	"bytes"
+	"encoding/binary"
 	"encoding/hex"
 	"encoding/json"
 	"fmt"
@@ -883,6 +884,7 @@ func TestVerifC11Replay(t *testing.T) {
 	wg.Wait()
 	res.Stat("jobs", int64(len(work)))
 	c11ConnStage(res)
+	c11CrossStage(res)
 }
 
 // ---------------------------------------------------------------- garbage through a real connection (deplex)
@@ -1174,13 +1176,228 @@ func c11ConnStage(res *kit.Result) {
 	}
 }
 
-// TestVerifC11Conn runs only the connection-path stage.
+// c11CrossStage: after every garbage class has been received (and rejected), N valid first frames of DIFFERENT
+// streams arrive concurrently on 2..4 connections (real deplex goroutines inside recvDataFromRemote). Every stream
+// must read exactly its own payload. In the "backlog" variant the accept queue is full beforehand, so the first
+// receiver parks while it holds its authenticated frame and the others overlap it for certain; the "free" variant
+// has the application accepting all the time.
+func c11CrossStage(res *kit.Result) {
+	rng := kit.NewRng(kit.Seed()*271 + 11)
+	probe := c11NewSession(Obfuscator{})
+	maxPayload := probe.maxStreamUnitWrite
+	type gclass struct {
+		name string
+		gen  func(valid []byte) []byte
+	}
+	classes := []gclass{
+		{"empty", func([]byte) []byte { return []byte{} }},
+		{"shorter-than-header", func([]byte) []byte { return rng.Bytes(1 + rng.Intn(13)) }},
+		{"header-only", func([]byte) []byte { return rng.Bytes(frameHeaderLength) }},
+		{"random-200", func([]byte) []byte { return rng.Bytes(200) }},
+		{"random-wire-limit", func([]byte) []byte { return rng.Bytes(16401) }},
+		{"tampered-valid-frame", func(v []byte) []byte {
+			d := append([]byte{}, v...)
+			d[frameHeaderLength+rng.Intn(len(d)-frameHeaderLength)] ^= 1 << rng.Intn(8)
+			return d
+		}},
+	}
+	repeats := 1
+	if kit.Thorough() {
+		repeats = 6
+	}
+	const vkey = "keeps-working:concurrent-streams-after-garbage"
+	for method := byte(0); method < 4; method++ {
+		mname := c11MethodNames[method]
+		bad := 0
+		for rep := 0; rep < repeats; rep++ {
+			for ci, cl := range classes {
+				if method == EncryptionMethodPlain && ci > 1 {
+					continue // under plain only messages shorter than 22 bytes are rejected; longer junk is a "frame" by design
+				}
+				for _, backlog := range []bool{true, false} {
+					if bad >= 3 {
+						continue
+					}
+					var key [32]byte
+					copy(key[:], rng.Bytes(32))
+					o, err := MakeObfuscator(method, key)
+					if err != nil {
+						return
+					}
+					sesh := c11NewSession(o)
+					k := 2 + rng.Intn(3)
+					clis := make([]net.Conn, k)
+					for c := 0; c < k; c++ {
+						cli, srv := net.Pipe()
+						clis[c] = cli
+						sesh.AddConnection(srv)
+					}
+					closeAll := func() {
+						for _, c := range clis {
+							c.Close()
+						}
+					}
+					send := func(c int, b []byte) error {
+						clis[c].SetWriteDeadline(time.Now().Add(30 * time.Second))
+						_, err := clis[c].Write(b)
+						return err
+					}
+					abandon := func(why string) {
+						res.Note("cross stage %s/%s: %s - round abandoned, no verdict", mname, cl.name, why)
+						res.Stat("cross-stage:abandoned", 1)
+						closeAll()
+					}
+					filler := 0
+					if backlog { // fill the accept queue with streams the application has not accepted yet
+						filler = acceptBacklog
+						ok := true
+						for id := 1; id <= filler && ok; id++ {
+							m, err := c11Seal(method, key, uint32(id), 0, closingNothing, []byte{byte(id)}, -1)
+							ok = err == nil && send(0, m) == nil
+						}
+						for dl := time.Now().Add(20 * time.Second); ok && len(sesh.acceptCh) < filler && time.Now().Before(dl); {
+							time.Sleep(200 * time.Microsecond)
+						}
+						if !ok || len(sesh.acceptCh) < filler {
+							abandon("could not fill the accept backlog")
+							continue
+						}
+					}
+					// the garbage class, a few items, on one or two of the connections
+					valid, _ := c11Seal(method, key, 4000, 0, closingNothing, kit.TokenBytes(4000, 300), -1)
+					gOK := true
+					for g := 0; g < 3 && gOK; g++ {
+						gOK = send(g%2, cl.gen(valid)) == nil
+					}
+					if !gOK {
+						res.Violate("session-broken:conn-pipe", fmt.Sprintf("%s: writing garbage class %s to the connection fails (connection closed by the session)", mname, cl.name), nil)
+						bad++
+						closeAll()
+						continue
+					}
+					// N valid first frames of different streams, concurrently over all connections
+					n := 2 * k
+					sizes := make([]int, n)
+					msgs := make([][]byte, n)
+					for i := range msgs {
+						sizes[i] = 64 + rng.Intn(900)
+						if method != EncryptionMethodPlain && i%2 == 0 {
+							sizes[i] = maxPayload - rng.Intn(4000) // long authentication = long overlap
+						}
+						msgs[i], err = c11Seal(method, key, uint32(5000+i), 0, closingNothing, kit.TokenBytes(uint64(5000+i), sizes[i]), -1)
+						if err != nil {
+							break
+						}
+					}
+					if err != nil {
+						abandon("cannot seal")
+						continue
+					}
+					start := make(chan struct{})
+					var wg sync.WaitGroup
+					werrs := make([]error, k)
+					for c := 0; c < k; c++ {
+						wg.Add(1)
+						go func(c int) {
+							defer wg.Done()
+							<-start
+							for i := c; i < n; i += k {
+								if err := send(c, msgs[i]); err != nil {
+									werrs[c] = err
+									return
+								}
+							}
+						}(c)
+					}
+					close(start)
+					if backlog {
+						time.Sleep(15 * time.Millisecond) // every connection's first frame is authenticated and waits
+					}
+					// the application accepts
+					got := map[uint32]*Stream{}
+					deadline := time.After(60 * time.Second)
+					writersDone := make(chan struct{})
+					go func() { wg.Wait(); close(writersDone) }()
+					var grace <-chan time.Time // starts when every frame has been taken by the session's readers
+					wd := writersDone
+					timedOut := false
+					for len(got) < n && !timedOut {
+						select {
+						case st := <-sesh.acceptCh:
+							if st == nil {
+								timedOut = true
+								break
+							}
+							if st.id >= 5000 {
+								got[st.id] = st
+							}
+						case <-wd:
+							wd = nil
+							grace = time.After(5 * time.Second)
+						case <-grace:
+							timedOut = true
+						case <-deadline:
+							timedOut = true
+						}
+					}
+					if timedOut {
+						closeAll() // releases writers that still wait for a parked reader
+					}
+					<-writersDone
+					res.Count(fmt.Sprintf("cross|%s|%s|%v|%d", mname, cl.name, backlog, k), true)
+					res.Stat("cross-stage:rounds", 1)
+					what := ""
+					for c, e := range werrs {
+						if e != nil && what == "" {
+							what = fmt.Sprintf("writing a valid frame on connection %d fails: %v (session closed=%v %q)", c, e, sesh.IsClosed(), sesh.TerminalMsg())
+						}
+					}
+					for i := 0; i < n && what == ""; i++ {
+						id := uint32(5000 + i)
+						st := got[id]
+						if st == nil {
+							what = fmt.Sprintf("stream %d was never offered to Accept (%d of %d new streams arrived)", id, len(got), n)
+							break
+						}
+						want := kit.TokenBytes(uint64(id), sizes[i])
+						buf := make([]byte, len(want))
+						st.SetReadDeadline(time.Now().Add(5 * time.Second))
+						r, err := io.ReadFull(st, buf)
+						if err != nil || !bytes.Equal(buf, want) {
+							whose := "unrecognisable bytes"
+							if r >= 9 && buf[0] == 0xA5 {
+								whose = fmt.Sprintf("the payload of stream %d", binary.BigEndian.Uint64(buf[1:9]))
+							}
+							what = fmt.Sprintf("stream %d should deliver its own %d bytes but Read gave %d bytes, err=%v: %s", id, len(want), r, err, whose)
+						}
+					}
+					if what == "" && sesh.IsClosed() {
+						what = "the session is closed: " + sesh.TerminalMsg()
+					}
+					if what != "" {
+						bad++
+						variant := "application accepting freely"
+						if backlog {
+							variant = "accept backlog full while the frames arrive"
+						}
+						res.Violate(vkey, fmt.Sprintf("%s: after garbage class %s was rejected, %d valid first frames of different streams on %d connections (%s): %s", mname, cl.name, n, k, variant, what),
+							map[string]any{"conn": true, "cross": true, "method": method, "class": cl.name, "backlog": backlog, "connections": k})
+					}
+					closeAll()
+				}
+			}
+		}
+	}
+}
+
+// TestVerifC11Conn runs only the connection-path stages.
 func TestVerifC11Conn(t *testing.T) {
 	log.SetOutput(io.Discard)
 	log.StandardLogger().ExitFunc = func(int) {}
 	res := kit.NewResult()
 	defer func() { res.Save(true) }()
 	c11ConnStage(res)
+	c11CrossStage(res)
 }
 
 func c11ReplayFile(t *testing.T, path string) {
@@ -1200,6 +1417,7 @@ func c11ReplayFile(t *testing.T, path string) {
 		// connection-path finding: re-run the stage (goroutine schedules are not replayable byte for byte)
 		res := kit.NewResult()
 		c11ConnStage(res)
+		c11CrossStage(res)
 		res.Save(false)
 		for _, v := range res.Violations {
 			fmt.Printf("key=%q what=%q\n", v.Key, v.What)
